@@ -3,7 +3,14 @@
    All theorems are about the functions the correspondence run executes (Extract/Extract_C19.v:
    run_message = handle_message/process, run_chunk = send_chunk, run_gone, translate_pure,
    tight_target).  [w] ranges over all worlds: any callback oracle (stateful, may change its answer),
-   any environment answers, any unread client bytes, any transfer state. *)
+   any environment answers, any unread client bytes, any transfer state.
+
+   NOT proved here (notes/C19.md, "Not proved (tested only)"): that [registered]/[enabled] of the TightVNC
+   gate correspond to rfbRegisterTightVNCFileTransferExtension / the extension list (a bare boolean in the
+   model); the default permitFileTransfer = FALSE (a constant checked by the harness only); anything about the
+   TightVNC download thread and data transfer; the TightVNC root being non-empty (false: F19e below); a
+   stand-alone trace theorem for the chunk sender beyond its entry guard; file-system level confinement
+   (symbolic links) for either protocol. *)
 From Coq Require Import ZArith List Bool.
 From LV Require Import Gen.Consts_C19 Session.FileXferDefs Session.FileXferProofs Session.FileXferHoare
   Session.FileXferTrace Session.FileXferLeak Session.FileXferTight Session.FileXferTightProofs.
@@ -59,7 +66,11 @@ Proof. exact entry_send_chunk. Qed.
    zlib call other than close/closedir, or bytes sent)
      - is preceded by no rfbCloseClient of this message (nothing happens after a refusal), and
      - if it is a path-taking call, its path is the translation of a name the client sent in this
-       very message (stat: or an entry of the listed directory) *)
+       very message; for stat: or  d ++ "/" ++ n  with d such a translation and n WHATEVER the readdir oracle
+       answered (the model does not constrain n: the operating system guarantees that a directory entry has
+       no '/', and ".." is a real entry that rfbSendDirContent does stat).  Calls that take a descriptor
+       instead of a path (read, write, close, closedir, readdir, fstat, zlib) are NOT constrained by
+       [allowed_op] beyond happening before the refusal. *)
 Theorem C19_effects_guarded_and_paths_translated : forall cfg ct cp sz len w0 l pre e post,
   sock_open (w_st w0) = true ->
   msg_trace cfg ct cp sz len w0 l -> l = pre ++ e :: post -> is_effect e = true ->
@@ -67,24 +78,27 @@ Theorem C19_effects_guarded_and_paths_translated : forall cfg ct cp sz len w0 l 
   (forall op, e = Fs op -> allowed_op cfg (client_names ct cp (firstn (Z.to_nat len) (w_in w0))) op).
 Proof. exact effects_only_before_close_and_on_translated_names. Qed.
 
-(* the same at the level of the dispatcher (what the correspondence run executes): for some set of
-   client-sent names the whole trace of one rfbFileTransfer message satisfies the invariant *)
+(* the same at the level of the dispatcher (what the correspondence run executes): the whole trace of one
+   rfbFileTransfer message satisfies the invariant for the names the client sent IN THIS MESSAGE
+   ([message_names] computes them from the message bytes: type, parameter, length field, payload) *)
 Theorem C19_message_trace_ok : forall cfg w0,
   sock_open (w_st w0) = true ->
-  exists names, Inv (allowed_op cfg names) (w_ev w0) (snd (handle_message cfg w0)).
-Proof. exact message_trace_ok. Qed.
+  Inv (allowed_op cfg (message_names (w_in w0))) (w_ev w0) (snd (handle_message cfg w0)).
+Proof. exact message_trace_ok_names. Qed.
 
-(* C19_transfer_ends_with_connection: a transfer never outlives its connection.  True for the tree
-   since fix commit 4d56b95 (the mirror's [fix_f7 = true]): teardown leaves no descriptor, whatever
-   the state; [lost_fds] (descriptors overwritten while open) is not changed by it *)
-Theorem C19_transfer_ends_with_connection : forall cfg envs st,
+(* UltraVNC protocol only, one step: rfbClientConnectionGone closes the descriptor recorded in
+   cl->fileTransfer.fd (tree since fix commit 4d56b95, [fix_f7 = true]); descriptors lost earlier ([lost_fds])
+   are not recovered by it.  This is an unfolding of the teardown step; the statement "a transfer never
+   outlives its connection" over whole histories is C19_teardown_never_blocks (needs [repaired]), and for the
+   TightVNC extension it is FALSE for the tree: C19_tight_upload_fd_lost_refuted (F19f) *)
+Theorem C19_teardown_closes_descriptor_ultravnc : forall cfg envs st,
   fix_f7 cfg = true ->
   let '(_, _, st') := run_gone cfg envs st in fd_open st' = false /\ lost_fds st' = lost_fds st.
 Proof. exact teardown_closes_fixed. Qed.
 
 (* the flow before that commit ([fix_f7 = false]) violated it: witness kept as regression test
    (corpus/C19/f7_fd_outlives_connection.script) *)
-Theorem C19_transfer_ends_with_connection_prefix_refuted : exists cfg perms envs input,
+Theorem C19_teardown_closes_descriptor_prefix_refuted : exists cfg perms envs input,
   let '(_, _, st, _, _, _) := run_message cfg perms true envs input st0 in
   let '(_, _, st') := run_gone cfg [] st in fd_open st' = true.
 Proof. exact transfer_outlives_connection. Qed.
@@ -132,16 +146,23 @@ Theorem C19_tight_confined_prefix_refuted : exists root path t rel,
   tight_target false true true false root path = Some t /\ t = root ++ rel /\ stays_below_root rel = false.
 Proof. exact tight_confined_refuted. Qed.
 
-(* C19_no_descriptor_leak.  For the repaired control flow (the tree: fix commits 4d56b95, b4cfd8a,
-   8230228), at every point of every history of a connection - any sequence of messages of any type,
+(* C19_no_descriptor_leak (UltraVNC protocol).  For the repaired control flow (the tree: fix commits 4d56b95,
+   b4cfd8a, 8230228), at every point of every history of a connection - any sequence of messages of any type,
    chunk-sender calls, arbitrary callback answers, arbitrary file-system answers, arbitrary client
    bytes - no descriptor has been lost (the only one that can be open is the one recorded in
-   cl->fileTransfer.fd), no directory stream is open (unless the environment oracle answered with the
-   wrong kind of value: ModelErr), and cl->outputMutex is not held *)
+   cl->fileTransfer.fd) and cl->outputMutex is not held *)
 Theorem C19_no_descriptor_leak : forall cfg w,
-  repaired cfg -> reachable cfg w ->
-  lost_fds (w_st w) = 0 /\ out_locked (w_st w) = false /\ (dir_open (w_st w) = false \/ In ModelErr (w_ev w)).
-Proof. exact no_descriptor_leak. Qed.
+  repaired cfg -> reachable cfg w -> lost_fds (w_st w) = 0 /\ out_locked (w_st w) = false.
+Proof. intros cfg w R H. destruct (no_descriptor_leak cfg w R H) as [A [B _]]. split; assumption. Qed.
+
+(* PARTIAL: no directory stream is open between messages - unless the environment oracle has, at any earlier
+   point of the connection, answered a call with the wrong kind of value (ModelErr).  The escape is
+   cumulative: one such answer voids the claim for the rest of the history.  The recorded answers the
+   correspondence run feeds to the model are of the right kind, so the escape is never taken there.  The full
+   statement  dir_open (w_st w) = false  for every oracle is not proved. *)
+Theorem C19_no_dirstream_leak_partial : forall cfg w,
+  repaired cfg -> reachable cfg w -> dir_open (w_st w) = false \/ In ModelErr (w_ev w).
+Proof. intros cfg w R H. destruct (no_descriptor_leak cfg w R H) as [_ [_ C]]. exact C. Qed.
 
 (* C19_teardown_never_blocks: hence rfbClientConnectionGone always gets cl->outputMutex, and after it
    no descriptor of the connection is open *)
@@ -159,6 +180,10 @@ Theorem C19_tight_every_entry_gated : forall v root st m,
   t_alive st = true -> tight_step_g v root st (false, m) = drop st.
 Proof. exact tight_gate_closed. Qed.
 
+(* (listing: the model has the per-entry stat - TStatEntry - and the fullpath[PATH_MAX] overflow; the
+   correspondence run passes an empty entry list to the model and the oracle ignores the implementation's
+   per-entry stats, so the per-entry part is proved about the model but compared only through the overflow
+   crash) *)
 (* ... and a dropped connection handles nothing any more *)
 Theorem C19_tight_dropped_is_silent : forall v root st ms, t_alive st = false -> tight_run v root st ms = [].
 Proof. exact tight_dead_is_silent. Qed.
@@ -176,10 +201,28 @@ Theorem C19_tight_listing_overflow_refuted : exists root ms,
   In TOverflow (tight_run v_tight_tree root tstate0 ms).
 Proof. exact tight_listing_overflow_refuted. Qed.          (* F19d: fullpath[PATH_MAX] strcpy/strcat *)
 
-(* it holds for the flow with notes/fix_C19_4.diff and notes/fix_C19_5.diff *)
+Theorem C19_tight_upload_fd_lost_refuted : exists root ms,
+  In TLostFd (tight_run v_tight_tree root tstate0 ms).
+Proof. exact tight_upload_fd_lost_refuted. Qed.            (* F19f: second upload request loses the first descriptor *)
+
+(* it holds for the flow with notes/fix_C19_4.diff and notes/fix_C19_5.diff.  CAVEAT (audit item 2): for
+   root = "" [op_ok]/[below_root] hold for every absolute path without ".." component - the theorem then
+   confines nothing; and the extension does run with the empty root: *)
 Theorem C19_tight_every_entry_confined_fixed : forall root ms st,
   name_ok root st -> Forall (op_ok root) (tight_run v_tight_fixed root st ms).
 Proof. exact tight_every_entry_confined. Qed.
+
+(* F19e: "transfer switched on implies a non-empty root" is false (no usable passwd home, no -ftproot) *)
+Theorem C19_tight_enabled_implies_root_refuted : exists env args,
+  t_enabled (run_args env tinit0 args) = true /\ t_root (run_args env tinit0 args) = [].
+Proof. exact tight_enabled_implies_root_refuted. Qed.
+
+(* with a usable home directory other than "/" the initial root is that directory *)
+Theorem C19_tight_root_nonempty_with_home : forall env c h,
+  pw_home env = Some (c :: h) -> dir_ok env (c :: h) = true -> Zlength (c :: h) <= C19_PATH_MAX - 1 ->
+  strip_slash (c :: h) <> [] ->
+  t_enabled (init_ft env tinit0) = true /\ t_root (init_ft env tinit0) = strip_slash (c :: h).
+Proof. exact tight_root_nonempty_with_home. Qed.
 
 (* the extension's command line (rfbTightProcessArg / InitFileTransfer / SetFtpRoot): for every passwd
    entry and file system ([env]), every prior state and every further arguments:
